@@ -63,6 +63,10 @@ def run(ctx):
         g = tplm.grammar_text(rng.choice(tpls)).encode()
         for _ in range(2):
             fam.append((g, rng.choice(tplm.LEFTREC_INPUTS).encode(), "hidden-leftrec-seeded"))
+    # every builtin token class (EOF, COMMENT, ... of cl's idents table) inside repetition / list / optional contexts on
+    # inputs matched up to the very end of the token list: also run whatever the model says
+    for g, t in tplm.builtin_class_family():
+        fam.append((g, t, "builtin-class-at-end"))
     for g, t, c in fam:
         cases.append((g, t))
         cats.append(c)
@@ -157,7 +161,9 @@ def run(ctx):
     ctx.cover(evaluations=len(idx) + len(WITNESSES), distinct_nontrivial=len(set(cases[i] for i in idx if flags[i] in ("P", "N"))), retproc_pairs=nrp,
               samples=[{"grammar": cases[i][0].decode("utf-8", "replace"), "input": cases[i][1].decode("utf-8", "replace"),
                         "impl": (rows[i] or ["(not run)"])[0][:120], "certificate": flags[i]} for i in (0, 5, 100, len(cases) - 1)] + wit[:2],
-              rule="RetProc family (%d pairs): a rewriter on a rule (reject the literal 0 with a runtime/Dyn error or an ordinary error, wrap, "
+              rule="builtin-token-class family: the 18 builtin class names (whole idents table of tpl/cl incl. EOF and COMMENT, RAWSTRING, "
+                   "QSTRING; SPACE is nullable and covered elsewhere) x 15 repetition/list/optional/adjoin/rule contexts x 10 inputs consumed to the end of the token list, "
+                   "always run under the watchdog; RetProc family (%d pairs): a rewriter on a rule (reject the literal 0 with a runtime/Dyn error or an ordinary error, wrap, "
                    "identity; optionally a second rewriter on doc) in 13 repetition/sequence/choice/list/adjoin/nesting contexts x 14 inputs "
                    "(rejected element first/second/later/last/nested/absent) + seeded grammars with random rewriters; "
                    "hidden-left-recursion family (%d pairs, run on the implementation whatever the model says): 20 nullable constructs "
